@@ -841,7 +841,7 @@ func (e *Engine) havocLoop(st *State, li *loopInfo) {
 			heaps[h] = true
 		}
 	}
-	if li.hasUnknownCall || e.loopRunsClosures(li) {
+	if e.loopCallsFunctionValue(li) || e.loopRunsClosures(li) {
 		// a function value called in the loop (directly or inside a closure the loop creates) may be one of the
 		// closures this execution knows: what they write is no longer what it was before the loop
 		e.havocKnownClosureWrites(st)
